@@ -1,5 +1,179 @@
-(* Properties/C09.v -- placeholder while the correspondence is brought up *)
-From Verif Require Import Box.BoxGen Box.BoxWf.
-Theorem C09_makebox_none : forall d1 d2, make_box_type DNone d1 d2 = None.
-Proof. intros [] d2; reflexivity. Qed.
-Print Assumptions C09_makebox_none.
+(* Properties/C09.v -- The box tree obeys the CSS box-generation rules.
+   Only statements, closed by `exact`, each followed by Print Assumptions.
+   Model: Box/BoxGen.v (port of html/boxes/build.go: CreateAnonymousBox and its
+   five passes, wrapTable, makeBox's display switch), Box/TableGrid.v (grid
+   slots).  Specification: Box/BoxWf.v (wf, wf_root), Box/TableGridSpec.v,
+   Box/MakeBoxSpec.v.  Check/C09.v ties the model to /repo on every run. *)
+From Verif Require Import Base.GoSem Box.BoxGen Box.TableGrid Box.TableGridSpec Box.TableGridProofs
+  Box.BoxWf Box.MakeBoxSpec Box.BoxInv Box.TableFixupProofs Box.FlexGridProofs Box.InlineInBlockProofs
+  Box.BlockInInlineProofs Box.BoxSim Box.BoxWfProofs.
+From Coq Require Import ZArith List Bool.
+Import ListNotations.
+Open Scope Z_scope.
+
+(* ------------------------------------------------------------------ display -> box type *)
+(* every supported display value generates the box type CSS names for it
+   (outer display: block-/inline-level, inner display: kind of container,
+   table-internal values: the table part); every other value generates no box *)
+Theorem C09_makebox_table_total : forall d0 d1 d2,
+  (supported d0 d1 = true -> exists t, make_box_type d0 d1 d2 = Some t /\ box_type_ok d0 d1 t = true) /\
+  (supported d0 d1 = false -> make_box_type d0 d1 d2 = None).
+Proof. exact make_box_total. Qed.
+Print Assumptions C09_makebox_table_total.
+
+Theorem C09_box_type_determined : forall d0 d1 t t',
+  box_type_ok d0 d1 t = true -> box_type_ok d0 d1 t' = true -> t = t'.
+Proof. exact box_type_unique. Qed.
+Print Assumptions C09_box_type_determined.
+
+(* display:none generates no box *)
+Theorem C09_display_none_no_box : forall d1 d2, make_box_type DNone d1 d2 = None.
+Proof. intros d1 d2. destruct d1; reflexivity. Qed.
+Print Assumptions C09_display_none_no_box.
+
+(* ------------------------------------------------------------------ grid slots *)
+(* For every row group whose cells have colspan >= 0 and rowspan >= 0 (the
+   attribute parser gives colspan >= 1, rowspan >= 0) the assignment of
+   wrapTable never panics, its first-free-column loop terminates, and:
+   rowspans are clipped to the group and GridX >= 0 (slot_in_group); no cell
+   covers the column a later cell is anchored on (anchors_free); each cell is
+   anchored on the least column at or after the end of the previous cell of
+   its row that no cell of an earlier row covers (rows_placed / row_placed);
+   if no cell spans several columns all slots are pairwise disjoint. *)
+Theorem C09_slots : forall g,
+  group_spans_ok g ->
+  exists g',
+    box_assign_group g = Ok g' /\
+    group_grid_ok g' = true /\
+    rows_placed box box bcolspan browspan bgridx place_cell ch set_ch [] 0
+                (Z.of_nat (length (ch g))) (ch g) (ch g') /\
+    ((forall r c, In r (ch g) -> In c (ch r) -> colspan (mu c) <= 1) -> group_disjoint g' = true).
+Proof. exact box_group_grid. Qed.
+Print Assumptions C09_slots.
+
+(* the same for any representation of cells (used by C13 on plain records) *)
+Theorem C09_slots_generic :
+  forall (cell row : Type) (colspan_of rowspan_of gridx_of : cell -> Z) (place : cell -> Z -> Z -> cell)
+         (cells_of : row -> list cell) (set_cells : row -> list cell -> row),
+    (forall c x r, gridx_of (place c x r) = x) ->
+    (forall c x r, rowspan_of (place c x r) = r) ->
+    (forall c x r, colspan_of (place c x r) = colspan_of c) ->
+    (forall r cs, cells_of (set_cells r cs) = cs) ->
+    forall rows,
+      rows_spans_ok cell row colspan_of rowspan_of cells_of rows ->
+      exists rows',
+        assign_group cell row colspan_of rowspan_of place cells_of set_cells rows = Ok rows' /\
+        rows_placed cell row colspan_of rowspan_of gridx_of place cells_of set_cells [] 0
+                    (Z.of_nat (length rows)) rows rows' /\
+        anchors_free (rows_slots cell row colspan_of rowspan_of gridx_of cells_of 0 rows') = true /\
+        forallb (slot_in_group (Z.of_nat (length rows)))
+                (rows_slots cell row colspan_of rowspan_of gridx_of cells_of 0 rows') = true.
+Proof. exact assign_group_spec. Qed.
+Print Assumptions C09_slots_generic.
+
+(* The full statement of the property text, "no two cells on the same grid
+   slot", for every row group: *)
+Definition C09_slots_disjoint_statement : Prop :=
+  forall g g', group_spans_ok g -> box_assign_group g = Ok g' -> group_disjoint g' = true.
+
+(* It is FALSE of the faithful model (and of /repo: corpus/C09/colspan-over-rowspan.html):
+   a cell with colspan 2 placed next to a cell row-spanning from above. *)
+Definition cell_cs_rs (cs rs : Z) : box :=
+  Box CellT (mkA 0 0 false false false false true 0 0 cs rs 1 []) (mkM 0 cs rs false false false false false) [].
+Definition plain (t : bty) (l : list box) : box :=
+  Box t (mkA 0 0 false false false false true 0 0 1 1 1 []) mut0 l.
+Definition overlap_witness : box :=
+  plain RowGroupT [plain RowT [cell_cs_rs 1 2; cell_cs_rs 1 1; cell_cs_rs 1 2]; plain RowT [cell_cs_rs 2 1]].
+
+Theorem C09_slots_disjoint_refuted : ~ C09_slots_disjoint_statement.
+Proof.
+  intros H.
+  assert (Hsp : group_spans_ok overlap_witness).
+  { repeat constructor; simpl; discriminate. }
+  destruct (box_assign_group overlap_witness) as [g'| |] eqn:E; [|vm_compute in E; discriminate..].
+  specialize (H overlap_witness g' Hsp E).
+  vm_compute in E. injection E as <-. vm_compute in H. discriminate.
+Qed.
+Print Assumptions C09_slots_disjoint_refuted.
+
+(* ------------------------------------------------------------------ the passes *)
+(* Hypothesis of the pass theorems: `tree iok t` (Box/BoxInv.v) = the tree is
+   as elementToBox builds it (no line box, no wrapper flag, text and replaced
+   boxes without children, colspan/rowspan attributes >= 0) and contains no
+   position:running() element.  `tree (cok k)` is the invariant after pass k;
+   `tree (cok 5)` implies the specification wf (C09_stage5_is_wf). *)
+
+(* after AnonymousTableBoxes every table-internal box has a proper parent and
+   every table sits in a wrapper (captions + table; column groups, row groups,
+   rows, cells; grid slots assigned) *)
+Theorem C09_table_fixup_wf : forall t t',
+  tree iok t = true -> anonymous_table_boxes t = Ok t' ->
+  fixed 1 t' = true /\ ty t' = result_ty (ty t).
+Proof. exact atb_typed. Qed.
+Print Assumptions C09_table_fixup_wf.
+
+Theorem C09_flex_grid_items_blockified : forall t,
+  tree (cok 1) t = true -> tree (cok 3) (grid_boxes (flex_boxes t)) = true.
+Proof. exact flex_grid_items_blockified. Qed.
+Print Assumptions C09_flex_grid_items_blockified.
+
+Theorem C09_inline_in_block_wf : forall t t',
+  tree (cok 3) t = true -> inline_in_block t = Ok t' -> tree (cok 4) t' = true /\ sim t t'.
+Proof. exact iib_typed. Qed.
+Print Assumptions C09_inline_in_block_wf.
+
+(* BlockInInline: for EVERY amount of fuel (no bound on nesting depth), a
+   returned tree has no in-flow block-level box inside an inline or line box.
+   What is not proved is that the fuel S (size t) given by create_anonymous
+   always suffices and that the explicit panics ("Should not skip here", the
+   slice box.Children[skip:]) are unreachable: *)
+Theorem C09_block_in_inline_wf_partial : forall fuel t t',
+  tree (cok 4) t = true -> ty t <> InlineT -> ty t <> LineT ->
+  block_in_inline fuel t = Ok t' -> tree (cok 5) t' = true /\ sim t t'.
+Proof. exact bii_typed. Qed.
+Print Assumptions C09_block_in_inline_wf_partial.
+
+Definition C09_block_in_inline_wf_statement : Prop :=
+  forall t, tree (cok 4) t = true -> ty t <> InlineT -> ty t <> LineT ->
+  exists t', block_in_inline (S (size t)) t = Ok t' /\ tree (cok 5) t' = true.
+
+Theorem C09_stage5_is_wf : forall t, tree (cok 5) t = true -> wf t = true.
+Proof. exact tree_cok5_wf. Qed.
+Print Assumptions C09_stage5_is_wf.
+
+(* ------------------------------------------------------------------ composition *)
+(* CreateAnonymousBox: whenever the five passes return a tree for a document
+   without running elements whose root generates a block-level box, that tree
+   is well formed: block containers hold only block-level boxes or one line
+   box, inline and line boxes only inline-level / out-of-flow boxes, tables
+   sit in wrappers with captions, column groups, row groups > rows > cells,
+   flex and grid containers hold only blockified items, replaced and text
+   boxes have no children. *)
+Theorem C09_create_anonymous_wf_partial : forall t t',
+  input_ok t = true -> block_flow_t (result_ty (ty t)) = true ->
+  create_anonymous t = Ok t' -> wf_root t' = true.
+Proof. exact create_anonymous_wf_root. Qed.
+Print Assumptions C09_create_anonymous_wf_partial.
+
+(* full statement: also with running elements in the document, and totality
+   (no panic of wrapTable's byType lookup, of InlineInBlock, of BlockInInline;
+   enough fuel).  Checked on every run by Check/C09.v (code 5/6 = a crash on
+   one side only). *)
+Definition iok_running (b : box) : bool :=
+  (0 <=? a_colspan (at_ b)) && (0 <=? a_rowspan (at_ b)) && mut_ok b && negb (is_wrap (mu b)) &&
+  negb (is LineT b) && (parent_t (ty b) || no_kids (ch b)).
+Definition C09_create_anonymous_wf_statement : Prop :=
+  forall t, tree iok_running t = true -> block_flow_t (result_ty (ty t)) = true ->
+  exists t', create_anonymous t = Ok t' /\ wf_root t' = true.
+
+(* the hypotheses are inhabited: a table cell and a block inside an inline box *)
+Definition example_doc : box :=
+  plain BlockT [
+    plain InlineT [Box TextT (mkA 1 0 true false false false true 0 0 1 1 1 [97%N]) mut0 [];
+                   plain BlockT [];
+                   cell_cs_rs 2 0];
+    plain FlexT [Box TextT (mkA 2 0 true false false false true 0 0 1 1 1 [98%N]) mut0 []]].
+Example C09_example :
+  input_ok example_doc = true /\
+  exists t', create_anonymous example_doc = Ok t' /\ wf_root t' = true /\ tables_disjoint t' = true.
+Proof. split; [reflexivity|]. eexists. split; [vm_compute; reflexivity|]. split; reflexivity. Qed.
